@@ -1200,6 +1200,13 @@ func (f *facts) flowTables(conn, tr *ast.File) string {
 				case p == "readNewBytes":
 					return "rawReadBody"
 				}
+			case *ast.AssignStmt:
+				// `err = Error(response.ErrorCode)`: the broker's error code becomes the result
+				if len(x.Rhs) == 1 {
+					if c, isC := x.Rhs[0].(*ast.CallExpr); isC && selPath(c.Fun) == "Error" {
+						return "kafkaError"
+					}
+				}
 			case *ast.ReturnStmt:
 				if len(x.Results) == 2 {
 					if src(f.fset, x.Results[0]) == "nil" {
@@ -1210,19 +1217,9 @@ func (f *facts) flowTables(conn, tr *ast.File) string {
 			}
 			return ""
 		}
-		rows, unk := f.runScenarios(fd, []string{"negotiateFailed", "handshakeWasV1", "writeFailed", "flushFailed", "lengthReadFailed", "negativeLength"},
-			func(e ast.Expr) string {
-				p := classify(e)
-				switch strings.TrimPrefix(p, "!") {
-				case "framedExchangeFailed", "errorCodeInAnswer":
-					return "" // handled below as fixed
-				}
-				return p
-			}, effect)
-		_ = rows
-		_ = unk
-		rows, unk = f.runScenariosFixed(fd, []string{"negotiateFailed", "handshakeWasV1", "writeFailed", "flushFailed", "lengthReadFailed", "negativeLength"},
-			map[string]bool{"framedExchangeFailed": false, "errorCodeInAnswer": false}, nil, classify, effect)
+		// the framed branch has outcomes of its own (the exchange fails / the answer carries an error code): dimensions too
+		rows, unk := f.runScenariosFixed(fd, []string{"negotiateFailed", "handshakeWasV1", "writeFailed", "flushFailed", "lengthReadFailed", "negativeLength",
+			"framedExchangeFailed", "errorCodeInAnswer"}, nil, nil, classify, effect)
 		emit("connSaslAuthenticateFlow", rows, unk)
 	}
 
